@@ -33,6 +33,9 @@ SHAPES = {
     # names that are not NFC-stable next to siblings that sort between their raw and composed forms
     # members whose names differ only in letter case / Unicode normalisation form / compatibility folding
     "DTW": [["caf\u00e9.txt"], ["cafe\u0301.txt"], ["Notes.txt"], ["notes.txt"], ["sub", "\u212a.bin"], ["sub", "k.bin"]],
+    # names that are not UTF-8 (the OS hands them over with surrogate escapes) next to names from U+E000 up, whose text order
+    # and raw-byte order differ from theirs; BEP 3 paths are UTF-8, so a create may refuse such a payload
+    "DRAW": [["\udcfcber.txt"], ["\uff21 fullwidth.txt"], ["plain.txt"], ["sub", "\udce9t\udce9.bin"], ["sub", "\U0001F600.bin"]],
     "DNFC": [["e\u0301.bin"], ["f.bin"], ["sub", "\u212a-scale.dat"], ["sub", "notes.txt"]],
     "DS": [["@"]],                     # a directory whose only file carries the directory's own name
     "DL": [["a.bin"], ["sub", "b.bin"], ["mirror", "a.bin"], ["zz-link"]],    # hard links inside the payload
